@@ -228,6 +228,29 @@ Theorem C05_cbc_hmac_accept_iff_tag :
 Proof. exact sm4_cbc_sm3_hmac_accept_iff. Qed.
 Print Assumptions C05_cbc_hmac_accept_iff_tag.
 
+(* the padding clause of the rule above, spelled out: strict PKCS #7 (sm4_cbc_padding_decrypt since
+   commit 75d04f0) -- length byte in 1..16 and EVERY padding byte equal to it *)
+Theorem C05_cbc_finish_strict_padding_rule :
+  forall D (c : cbc_ctx) t,
+  cbc_dec_finish D c = Ok t <->
+  length (cb_buf c) = 16%nat /\
+  let p := xor_bytes (D (cb_buf c)) (cb_iv c) in
+  let pad := nth 15 p 0%N in
+  (1 <= pad <= 16)%N /\
+  (forall b, In b (skipn (16 - N.to_nat pad) p) -> b = pad) /\
+  t = firstn (16 - N.to_nat pad) p.
+Proof. exact cbc_dec_finish_ok_iff. Qed.
+Print Assumptions C05_cbc_finish_strict_padding_rule.
+
+(* whole-message form of SM4-CBC+SM3-HMAC (the form the streaming model is compared with on every
+   case): decryption accepts the output of encryption, for every 48-byte key, IV, AAD, message *)
+Theorem C05_cbc_hmac_dec_accepts_enc :
+  forall key iv aad p,
+  length key = 48%nat -> blk_ok iv -> bytes_ok p = true ->
+  cbc_hmac_spec_decrypt key iv aad (cbc_hmac_spec_encrypt key iv aad p) = Ok p.
+Proof. exact sm4_cbc_hmac_spec_dec_accepts_enc. Qed.
+Print Assumptions C05_cbc_hmac_dec_accepts_enc.
+
 (* consequences of the two rules above: a stream shorter than 32 bytes, or with a different last
    32 bytes, is rejected (no assumption); a changed ciphertext or AAD is rejected unless HMAC-SM3
    collides on AAD||ct (the rule itself is the statement); the IV is NOT covered: *)
